@@ -199,13 +199,14 @@ pub fn run_batch(
     prop: &str,
     tier: Tier,
     seed: u64,
+    first: u64,
     nruns: u64,
     workers: usize,
     gen: GenFn,
     exec: ExecFn,
     only_prop: bool,
 ) -> BatchResult {
-    let next = AtomicU64::new(0);
+    let next = AtomicU64::new(first);
     let aggs: Mutex<Vec<WorkerAgg>> = Mutex::new(Vec::new());
     std::thread::scope(|s| {
         for _ in 0..workers.max(1) {
